@@ -18,8 +18,9 @@ TABLE = {
     ("NPD_DEFAULT_HDRLEN", "nat", "NPD().hdrlen"),
     # the pad byte literal inside NPDSegment.pack: struct.pack(">B", 0xFF) * pad_len
     ("NPD_SEGMENT_PAD", "nat",
-     "int(__import__('re').search(r'struct\\.pack\\(\">B\", *(0[xX][0-9A-Fa-f]+|[0-9]+)\\) *\\* *pad_len', "
-     "__import__('inspect').getsource(NPDSegment.pack)).group(1), 0)"),
+     # searched in the whole module (a helper extracted from pack keeps the tie), multiplier name free
+     "int(__import__('re').search(r'struct\\.pack\\(\">B\", *(0[xX][0-9A-Fa-f]+|[0-9]+)\\) *\\* *[A-Za-z_]', "
+     "__import__('inspect').getsource(__import__('AcraNetwork.NPD', fromlist=['x']))).group(1), 0)"),
     ("BSL_SYNC_COUNT_MASK", "nat", "RS232Segment.BSL_SYNC_COUNT_MASK"),
     # the data types that select a typed segment class, by class (sorted keys)
     ("NPD_DT_KEYS", "nats", "sorted(NPD.NPD_DT)"),
